@@ -96,6 +96,7 @@ Clauses0(ev) ==
       pre  == Abs(ev.pre)
       post == Abs(ev.post)
       cons == Fn(ev.cons)
+      td   == DOMAIN cons \cup (IF ev.flagmode = "traced" THEN {ev.consall[j].p : j \in 1..Len(ev.consall)} ELSE {})
   IN
   IF ev.op = "assess" THEN AssessClauses(p, ev) ELSE
   IF ev.status # "ok" THEN
@@ -111,12 +112,13 @@ Clauses0(ev) ==
          \cup F("gen.agree", ~LawGenAgree(post, cons))
          \cup F("gen.weight", LawVisited(p, post) /\ ~LawGenWeight(p, post, cons, ev.w))
     [] ev.op \in {"update", "diffannotate"} ->
-         TraceClauses(p, post, ev) \cup AltClauses(post, ev) \cup Alt2Clauses(post, ev) \cup UndoClauses(pre, ev) \cup TagClauses(ev)
+         TraceClauses(p, post, ev) \cup AltClauses(post, ev) \cup UndoClauses(pre, ev) \cup TagClauses(ev)
+         \cup (IF RsD(p, post, ev.tags, td) = RsD(p, post, ev.tags, DOMAIN cons) THEN Alt2Clauses(post, ev) ELSE {})
          \cup F("upd.args", ~LawUpdArgs(post, ev.reqargs))
          \cup F("upd.constrained", ~LawUpdConstrained(post, cons))
-         \cup F("upd.kept", ~LawUpdKept(p, pre, post, ev.tags, cons))
-         \cup F("upd.weight", ~LawUpdWeight(p, pre, post, ev.tags, cons, ev.w))
-         \cup F("upd.discard", ev.hasdisc /\ ~LawUpdDiscard(p, pre, post, ev.tags, cons, Fn(ev.disc)))
+         \cup F("upd.kept", ~LawUpdKeptD(p, pre, post, ev.tags, cons, td))
+         \cup F("upd.weight", ~LawUpdWeightD(p, pre, post, ev.tags, cons, td, ev.w))
+         \cup F("upd.discard", ev.hasdisc /\ ~LawUpdDiscardD(p, pre, post, ev.tags, cons, td, Fn(ev.disc)))
          \cup TagVarClauses(p, post, cons, ev)
     [] ev.op = "empty" ->
          TraceClauses(p, post, ev) \cup AltClauses(post, ev) \cup UndoClauses(pre, ev) \cup TagClauses(ev)
